@@ -155,3 +155,12 @@ def c02_dotted_or_comma_name(v, params):
     if ',' in name and pos in ('column', 'ref_target_col'):
         return 'ColumnNotFoundError' in text
     return False
+
+
+def c05_dotted_enum(v, params):
+    """Same root cause as C01-dotted-name: an enum whose name/schema contains '.' is not resolved as a column type."""
+    c = v['case']
+    if c.get('mode') != 'ident' or '.' not in c.get('name', '') or c.get('pos') not in ('enum', 'enum_schema'):
+        return False
+    obs = v.get('observed') or []
+    return bool(obs) and all('type is not the declared Enum object' in o for o in obs)
